@@ -1,7 +1,90 @@
-(* C03 placeholder: theorems land with Proofs/WorldProofs.v *)
-From Coq Require Import ZArith List.
-From V Require Import Result World.
+(* C03 -- ir.get_by_uuid(u) finds exactly the nodes currently attached to that IR: node n is returned iff n is
+   reachable from ir through containment and n.uuid = u; independently for every IR; after any history.
+   Model: Model/World.v (cache, cache_add / cache_remove, the hooks of the owning collections, get_by_uuid),
+   Model/WorldGuard.v (the API typing discipline `op_okb`, pairwise distinct UUIDs; reachable states).
+   Invariant: InvDefs.CacheInv, part of WorldInv.InvAll.  Only property theorems here; proofs in
+   Proofs/SetOpsProofs.v, Proofs/ModListProofs.v (preservation), Proofs/WorldInv.v, Proofs/WorldProps.v. *)
+From Coq Require Import ZArith List Bool.
+From V Require Import Result LazyTree World WorldGuard ForestDefs InvDefs WorldInv WorldProps.
+From V Require ModListProofs ScheduleProofs.
 Import ListNotations.
-Theorem C03_new_detached : forall w n k u a s f nm p, par (step' w (ONew n k u a s f nm p)) n = None.
-Proof. intros. unfold step', step, par, getn. destruct k; cbn; unfold upd; rewrite Z.eqb_refl; reflexivity. Qed.
-Print Assumptions C03_new_detached.
+Open Scope Z_scope.
+
+(* in every reachable state, for every IR: the table answers u with n iff n is attached to ir and carries u;
+   consequently it answers None for every other UUID *)
+Theorem C03_cache_exact : forall w known ir, reachable_k w known -> has w ir = true -> kindof w ir = KIR ->
+  forall u n, get_by_uuid w ir u = Some n <-> In n (reach w ir) /\ nuuid (getn w n) = u.
+Proof. intros w known ir R H K. exact (proj2 (reach_cache w known R ir H K)). Qed.
+
+Theorem C03_none_otherwise : forall w known ir u, reachable_k w known -> has w ir = true -> kindof w ir = KIR ->
+  (get_by_uuid w ir u = None <-> forall n, In n (reach w ir) -> nuuid (getn w n) <> u).
+Proof. intros w known ir u R. exact (cache_none w known ir u (invall_reachable w known R)). Qed.
+
+(* `reach` (the IR, its modules, their sections / proxies / symbols, the sections' intervals, the intervals'
+   blocks: four levels of `kids`) is containment as seen from the node: the chain of parent attributes *)
+Theorem C03_reach_is_containment : forall w known ir n, reachable_k w known -> kindof w ir = KIR ->
+  (In n (reach w ir) <-> n = ir \/ ir_of w n = Some ir).
+Proof. intros w known ir n R. exact (ModListProofs.reach_ir_of w known ir n (reach_forest w known R)). Qed.
+
+(* no leakage between IRs: a node found through one IR is found through no other *)
+Theorem C03_no_leak : forall w known ir1 ir2 u1 u2 n, reachable_k w known ->
+  has w ir1 = true -> kindof w ir1 = KIR -> has w ir2 = true -> kindof w ir2 = KIR ->
+  get_by_uuid w ir1 u1 = Some n -> get_by_uuid w ir2 u2 = Some n -> ir1 = ir2.
+Proof. intros w known ir1 ir2 u1 u2 n R. exact (cache_no_leak w known ir1 ir2 u1 u2 n (invall_reachable w known R)). Qed.
+
+(* one entry per UUID, one UUID per attached node *)
+Theorem C03_one_entry_per_uuid : forall w known ir, reachable_k w known -> has w ir = true -> kindof w ir = KIR ->
+  NoDup (map fst (cache w ir)).
+Proof. intros w known ir R H K. exact (proj1 (reach_cache w known R ir H K)). Qed.
+
+(* "at every moment": reachable states are closed under every guarded operation, so the theorems above hold
+   after each step of any history, and also when lookups are interleaved (they only touch lazy interval trees) *)
+Theorem C03_every_step : forall w known o, reachable_k w known -> op_okb w known o = true ->
+  reachable_k (step' w o) (known_after o known).
+Proof. exact reachable_k_step. Qed.
+
+Theorem C03_with_lookups_interleaved : forall its,
+  CacheInv (fst (ScheduleProofs.run_sched w0 [] its)).
+Proof. intros its. exact (inv_cache _ _ (ia_inv _ _ (invall_sched its))). Qed.
+
+(* the deletions `del cache[uuid]` performed when a subtree is detached never hit a missing key: an operation
+   raises KeyError only where the built-in set / dict does (remove of a non-member, pop from an empty set,
+   del / pop of a missing offset, popitem on an empty map) *)
+Theorem C03_uuid_table_deletions_total : forall w known o, reachable_k w known -> op_okb w known o = true ->
+  step w o <> Err EKey \/ builtin_keyerror w o.
+Proof. intros w known o R. exact (no_keyerror w known o (invall_reachable w known R)). Qed.
+
+Theorem C03_keyerror_exactly_builtin : forall w known o, reachable_k w known -> op_okb w known o = true ->
+  (step w o = Err EKey <-> builtin_keyerror w o).
+Proof. intros w known o R. exact (keyerror_iff w known o (invall_reachable w known R)). Qed.
+
+(* non-vacuity: two IRs (1, 2) with one module each (3, 4); a section 5 holding interval 6 holding block 7 is
+   attached to module 3, then moved -- whole subtree -- to module 4 of the other IR.  Every operation is inside
+   the guard and succeeds; before the move the subtree is found through IR 1 only, after it through IR 2 only. *)
+Example C03_example :
+  let build := [ONew 1 KIR 101 None 0 0 0 PNone; ONew 2 KIR 102 None 0 0 0 PNone;
+                ONew 3 KMod 103 None 0 0 0 PNone; ONew 4 KMod 104 None 0 0 0 PNone;
+                ONew 5 KSec 105 None 0 0 0 PNone; ONew 6 KBI 106 (Some 16) 8 0 0 PNone;
+                ONew 7 KCode 107 None 4 2 0 PNone;
+                OSet 5 [KBI] SAdd [[6]]; OSet 6 [KCode; KData] SAdd [[7]]; OSet 3 [KSec] SAdd [[5]];
+                OModAppend 1 3; OModAppend 2 4] in
+  let move := [OSetParent 5 (Some 4)] in
+  let wa := fst (run_guarded w0 [] build) in
+  let wb := fst (run_guarded w0 [] (build ++ move)) in
+  all_guarded_ok w0 [] (build ++ move) = true /\
+  map (get_by_uuid wa 1) [101; 103; 105; 106; 107; 104] = [Some 1; Some 3; Some 5; Some 6; Some 7; None] /\
+  map (get_by_uuid wa 2) [102; 104; 105; 106; 107] = [Some 2; Some 4; None; None; None] /\
+  map (get_by_uuid wb 1) [101; 103; 105; 106; 107] = [Some 1; Some 3; None; None; None] /\
+  map (get_by_uuid wb 2) [102; 104; 105; 106; 107; 103] = [Some 2; Some 4; Some 5; Some 6; Some 7; None].
+Proof. vm_compute. repeat split. Qed.
+
+Print Assumptions C03_cache_exact.
+Print Assumptions C03_none_otherwise.
+Print Assumptions C03_reach_is_containment.
+Print Assumptions C03_no_leak.
+Print Assumptions C03_one_entry_per_uuid.
+Print Assumptions C03_every_step.
+Print Assumptions C03_with_lookups_interleaved.
+Print Assumptions C03_uuid_table_deletions_total.
+Print Assumptions C03_keyerror_exactly_builtin.
+Print Assumptions C03_example.
